@@ -27,3 +27,7 @@ Definition rbody_tuple (o : rop) (v : Z) : Z * Z * Z * Z * Z :=
 (* every C type that carries the counter's value is signed and at least as wide as the model's counter *)
 Definition ref_types_ok (tys : list (bool * Z)) : bool :=
   forallb (fun t => fst t && (ref_bits <=? snd t)%Z) tys.
+
+(* mutex.c (pthread branch): what a muggle_mutex_* function returns, and how many pthread_* calls it makes, as a
+   function of the value [rc] the pthread call returns: 0 is success, anything else the function's error code *)
+Definition mres (err rc : Z) : Z * Z := (if (rc =? 0)%Z then 0%Z else err, 1%Z).
